@@ -117,7 +117,20 @@ type Parser struct {
 
 	// Are we inside a function?
 	function bool
+
+	// depth is how deep in the syntax tree the expression is that
+	// we're parsing: each operand, and each operator of a chain,
+	// adds a level.
+	depth int
 }
+
+// maxDepth is how deep the syntax tree may become.
+//
+// We parse by recursive descent, and the tree we build is walked by
+// recursive functions too - the compiler above all.  Without a bound a
+// script of a few million brackets, or operators, would run our host
+// out of stack: that is fatal, and cannot be recovered from.
+const maxDepth = 10000
 
 // New returns a new parser.
 //
@@ -313,6 +326,17 @@ func (p *Parser) parseExpressionStatement() *ast.ExpressionStatement {
 
 // parse an expression.
 func (p *Parser) parseExpression(precedence int) ast.Expression {
+
+	// One level for this expression; the levels added below are
+	// given back when we're done.
+	entry := p.depth
+	defer func() { p.depth = entry }()
+	p.depth++
+	if p.depth > maxDepth {
+		p.tooDeep()
+		return nil
+	}
+
 	postfix := p.postfixParseFns[p.curToken.Type]
 	if postfix != nil {
 		return (postfix())
@@ -341,6 +365,14 @@ func (p *Parser) parseExpression(precedence int) ast.Expression {
 			return leftExp
 		}
 		p.nextToken()
+
+		// Every operator of a chain puts what we have so far one
+		// level further down: "a + b + c" is "(a + b) + c".
+		p.depth++
+		if p.depth > maxDepth {
+			p.tooDeep()
+			return nil
+		}
 		leftExp = infix(leftExp)
 
 		// Look for errors
@@ -351,6 +383,12 @@ func (p *Parser) parseExpression(precedence int) ast.Expression {
 		}
 	}
 	return leftExp
+}
+
+// tooDeep records that the script is nested more deeply than we allow.
+func (p *Parser) tooDeep() {
+	msg := fmt.Sprintf("the script is nested more than %d levels deep around %s", maxDepth, p.curToken.Position())
+	p.errors = append(p.errors, msg)
 }
 
 // report an error that we found an illegal state.
